@@ -145,7 +145,10 @@ BlockChecks(e, BB, UU) ==
                    /\ ~LimbEq(BlockWork(BB[lab].txs, BB[lab].creator), T3(e.hdr.work))
                 THEN {Bad(e, "C08", "block-work-differs-from-definition")} ELSE {}
         \* C08: every block the node wound had the work; payouts
-        c08w == IF adopted /\ rooted
+        \* (the work of a block and the requirement are functions of the block and its parent's header: they are
+        \* judged on every block the node wound, also on a chain that does not start at the genesis block and
+        \* also when the node aborted after winding the block)
+        c08w == IF adopted \/ wound_then_panic
                 THEN {Bad(e, "C08", "accepted-with-insufficient-routing-work in " \o x) : x \in {y \in Rng(wound) : short(y)}}
                 ELSE {}
         par(x) == BB[x].parent
@@ -157,7 +160,7 @@ BlockChecks(e, BB, UU) ==
                         ELSE LimbAdd(BB[par(x)].hdr.fees, IF paid2(x) THEN BB[gpar(x)].hdr.fees ELSE LimbZero)
         feetxs(x) == SelectSeq(BB[x].txs, LAMBDA t : t.type = TFee /\ t.auto)
         feeouts(x) == UNION {{t.outs[i] : i \in {j \in DOMAIN t.outs : ~IsZero(t.outs[j].amt)}} : t \in Rng(feetxs(x))}
-        c08p == IF adopted /\ rooted
+        c08p == IF (adopted \/ wound_then_panic) /\ rooted
                 THEN UNION {{Bad(e, "C08", "payout-to-ineligible-key:" \o o.owner \o " in " \o x)
                                : o \in {y \in feeouts(x) : y.owner \notin elig(x)}} : x \in Rng(wound)}
                      \cup {Bad(e, "C08", "payout-exceeds-fees-collected in " \o x)
